@@ -479,6 +479,11 @@ func layout(d doc, indent int, suffix string, out *[]string) {
 			i++
 		}
 		rest := d.items[i:]
+		if len(rest) == 0 {
+			// only atoms, too long for one line: nothing to break at
+			*out = append(*out, pad(indent)+line+suffix)
+			return
+		}
 		if len(rest) == 1 {
 			last := rest[0]
 			if last.kind == dList {
